@@ -51,7 +51,7 @@ def configs(tier):
     # messages' dilate-N counter passes 10)
     return [{"staged": False}, {"staged": None},
             {"staged": False, "long_session": True},
-            {"e2e": True}]
+            {"e2e": True}, {"relay_race": True}]
 
 
 def run_e2e(seed, tape, opts, app=None):
@@ -159,6 +159,107 @@ def run_e2e(seed, tape, opts, app=None):
                                          "reconverged": done_losses})
 
 
+def run_relay_race(seed, tape, opts):
+    """Direct hints and a relay. The direct path is slow to come up (its
+    dials hang for more than RELAY_DELAY, so the relay attempts have been
+    started), then a direct connection wins while relay attempts may still
+    be in flight. Later the connection in use is lost and only the relay is
+    reachable: the new generation's relay attempts complete, so the sides
+    must converge again."""
+    from worlds.dilation import DilationWorld, RELAY_HOST
+    w = DilationWorld(tape, opts)
+    sim = w.sim
+    sim.weights["advance"] = 0      # time moves only when nothing else can
+    relay = w.start_relay()
+    w.ping = 30.0
+    w.topo = "both+relay"
+    for s in w.sides:
+        s.build_manager(relay=relay, ping_interval=30.0)
+    direct = ("127.0.0.1", "10.1.0.1")
+    for h in direct:
+        sim.net.host_mode[h] = "hang"
+    viol = []
+
+    def shared():
+        # one link, or two links glued together by the relay
+        la, lb = w.current_link(w.A), w.current_link(w.B)
+        if la is None or lb is None or not (la.up and lb.up):
+            return False
+        if la is lb:
+            return True
+        ra = [unwrap(e.protocol) for e in la.ends
+              if getattr(e.protocol, "factory", None) is w.relay_factory]
+        rb = [unwrap(e.protocol) for e in lb.ends
+              if getattr(e.protocol, "factory", None) is w.relay_factory]
+        return bool(ra and rb and getattr(getattr(ra[0], "_buddy", None),
+                                          "_client", None) is rb[0])
+    w.both_connected = shared
+    for s in w.sides:
+        s.start(w.key)
+
+    def relay_attempted():
+        return any(a.host == RELAY_HOST for a in sim.net.attempts) or \
+            any(hp[0] == RELAY_HOST for hp in sim.net.dial_log)
+    sim.run(4000, until=relay_attempted, max_time=10)
+    sim.run(tape.choose(30, "race_w"), max_time=0.5)
+    sim.ev("direct_path_up")
+    for h in direct:
+        sim.net.host_mode[h] = "ok"
+    sim.run(6000, until=w.both_connected, max_time=120)
+    first_ok = w.both_connected()
+    if not first_ok:
+        viol.append({"key": "C11.no_convergence", "clause": "the two sides "
+                     "converge on a shared connection", "detail": "relay "
+                     "race: no shared connection although direct and relay "
+                     "paths are open; states %s / %s" %
+                     (_st(w.A.m), _st(w.B.m))})
+    nloss = 0
+    for i in range(1 + tape.choose(3, "rr_losses") if first_ok else 0):
+        sim.run(tape.choose(200, "rr_gap"), max_time=5)
+        link = w.current_link(w.A)
+        if link is None:
+            break
+        old = (w.A.m._connection, w.B.m._connection)
+        # from now on only the relay is reachable
+        for h in direct:
+            sim.net.host_mode[h] = "refuse"
+        sim.ev("loss_relay_only", i)
+        sim.note("fault.cut")
+        sim.net.cut(link, tape.pick((("c", "s"), ("c",), ("s",)), "rr_tell"))
+        sim.run(tape.choose(60, "rr_rev"), max_time=2)
+        sim.net.reveal(link)
+        nloss += 1
+
+        def again():
+            return w.both_connected() and \
+                w.A.m._connection is not old[0] and \
+                w.B.m._connection is not old[1]
+        r = sim.run(15000, until=again, max_time=400)
+        if not again():
+            waiting = sum(1 for l in sim.net.links for e in l.ends
+                          if e.alive and l.up and
+                          getattr(l.ends[1].protocol, "factory", None) is
+                          w.relay_factory) // 2
+            viol.append({"key": "C11.no_convergence", "clause": "after any "
+                         "loss of the connection in use the two sides "
+                         "converge on a new shared connection, provided the "
+                         "network lets at least one attempt of the new "
+                         "generation complete", "detail": "relay race: after "
+                         "loss #%d only the relay is reachable and its "
+                         "attempts complete, yet no shared connection (%s "
+                         "after %.0f s); states %s / %s; links open at the "
+                         "relay: %d" % (i + 1, r, sim.now() - 1000.0,
+                                        _st(w.A.m), _st(w.B.m), waiting)})
+            break
+    w.finish()
+    return {"violation": viol[0] if viol else None, "nontrivial": nloss > 0,
+            "digest": sim.hexdigest(), "trace": sim.trace,
+            "stats": {"steps": sim.steps, "sim_s": sim.now() - 1000.0,
+                      "notes": sim.notes},
+            "sample": {"seed": seed, "topology": "both+relay",
+                       "relay_only_losses": nloss}}
+
+
 def _st(m):
     for k in ("_state", "_manager_state"):
         if hasattr(m, k):
@@ -171,6 +272,8 @@ def _st(m):
 def run_one(seed, tape, opts):
     if opts.get("e2e"):
         return run_e2e(seed, tape, opts)
+    if opts.get("relay_race"):
+        return run_relay_race(seed, tape, opts)
     w = cc.setup(tape, opts, relay_ok=False)
     sim = w.sim
     faults = cc.L2Faults(w, tape, 6 + tape.choose(7, "fb2")
